@@ -27,10 +27,13 @@ CaseTags(ev) ==
 
 \* L2: what the generated accessor rendered at run time for range key j of a packed project.
 \*   n   : the count as an integer (i8 / u8, every value of the type)     idx : the count as an anchor (other types)
+\*   mode "near" (floats): idx is a half-step position, the count is the representable neighbour of an anchor
 RenderTags(ev) ==
     LET a == Cases[ev.case].abs.items[ev.j]
-        sel == IF ev.mode = "int" THEN SelectInt(a.branches, ev.n, a.ty) ELSE Select(a.branches, ev.idx)
-        shown == IF ev.mode = "int" THEN IntSyms(ev.n) ELSE Disp[a.ty][ev.idx] IN
+        sel == IF ev.mode = "int" THEN SelectInt(a.branches, ev.n, a.ty)
+               ELSE IF ev.mode = "near" THEN SelectHalf(a.branches, ev.idx) ELSE Select(a.branches, ev.idx)
+        \* mode "near": idx is a half-step position; how Rust displays the count is logged by the driver (ev.shown)
+        shown == IF ev.mode = "int" THEN IntSyms(ev.n) ELSE IF ev.mode = "near" THEN ev.shown ELSE Disp[a.ty][ev.idx] IN
     IF ev.outcome # "Ok" THEN {"render-outcome:" \o ev.outcome}
     ELSE IF sel = 0 THEN {}          \* no branch and no fallback: the property is silent (integer ranges may omit the fallback)
     ELSE IF ev.out = BranchTag(a.branches[sel].tag) \o <<"COLON">> \o shown THEN {}
